@@ -28,7 +28,7 @@ OpSet == CASE Preset = "ids" -> {"Emplace", "InsertCopy", "Erase", "SetAlias", "
            [] Preset = "kinds" -> {"Emplace", "SetExpression", "Erase", "SetAlias"}
            [] Preset = "names" -> {"Emplace", "SetAlias", "ResetAliases", "SetConvention", "SetTerm", "SetText", "InsertCopy", "Erase"}
            [] Preset = "ops" -> {"Emplace", "Erase"}
-           [] Preset = "texts" -> {"Emplace", "SetTerm", "SetText", "SetAlias", "Erase"}
+           [] Preset = "texts" -> {"Emplace", "SetTerm", "SetText", "SetAlias", "Erase", "SetTermForm"}
            [] Preset = "proj" -> {"Emplace", "SetExpression", "Erase"}
 UidPool == 1..(MaxCst + 1)
 EmplaceKinds == CASE Preset = "ids" -> {"base", "constant", "structured", "term", "axiom"}
@@ -127,6 +127,8 @@ Next ==
               Step(SetExpression(u, DefPool[i]), [Op("SetExpression") EXCEPT !.u = u, !.d = Toks(DefPool[i]), !.hasdef = (DefPool[i] # NoDef)])
      \/ /\ "SetConvention" \in OpSet /\ \E u \in Ids, q \in ConvPool : Step(SetConvention(u, q), [Op("SetConvention") EXCEPT !.u = u, !.w = q])
      \/ /\ "SetTerm" \in OpSet /\ Free /\ \E u \in Ids, q \in (IF Preset = "texts" THEN TermPoolT ELSE AtomsPool) : Step(SetTerm(u, q), [Op("SetTerm") EXCEPT !.u = u, !.q = q])
+     \/ /\ "SetTermForm" \in OpSet /\ Free /\ \E u \in Ids, f \in {"plur,gent", "sing,datv"} :
+              Step(SetTermForm(u, f, "manual"), [Op("SetTermForm") EXCEPT !.u = u, !.a = f, !.w = <<"manual">>])
      \/ /\ "SetText" \in OpSet /\ Free /\ \E u \in Ids, q \in (IF Preset = "texts" THEN TextPoolT ELSE AtomsPool) : Step(SetText(u, q), [Op("SetText") EXCEPT !.u = u, !.q = q])
      \/ /\ "MoveBefore" \in OpSet /\ \E u \in Ids, p \in 1..(Len(order) + 1) : Step(MoveBefore(u, p), [Op("MoveBefore") EXCEPT !.u = u, !.p = p])
      \/ /\ "ResetAliases" \in OpSet /\ Ids # {} /\ Step(ResetAliases, Op("ResetAliases"))
@@ -147,6 +149,7 @@ Obs ==
        tracked |-> u \in DOMAIN trk, allow |-> IF u \in DOMAIN trk THEN trk[u].allowEdit ELSE FALSE,
        ok |-> r.ok, type |-> IF r.ok THEN TypeStr(r.type) ELSE "", vc |-> r.vc,
        args |-> IF r.ok THEN [k \in DOMAIN r.args |-> [name |-> r.args[k].name, type |-> TypeStr(r.args[k].type)]] ELSE <<>>,
-       deps |-> SetToSeq(Deps(cst, u))]]]
+       deps |-> SetToSeq(Deps(cst, u)),
+       forms |-> LET fm == FormsOf(c)  ks == SetToSeq(DOMAIN fm) IN [k \in DOMAIN ks |-> <<ks[k], fm[ks[k]]>>]]]]
 Emit == PrintT(<<"CASE", ToJson([hist |-> hist, obs |-> Obs])>>)
 =============================================================================
